@@ -11812,7 +11812,10 @@ class TensorDictBase(MutableMapping):
                     value.clone()
                     if not _is_tensor_collection(type(value))
                     else (
-                        value
+                        # a new node, as clone() makes: handing over the node itself would
+                        # let an indexed write into the result rewrite the same position of
+                        # the source
+                        value.clone()
                         if is_non_tensor(value)
                         else value.to_tensordict(retain_none=retain_none)
                     )
